@@ -49,7 +49,7 @@ def parts(tier):
              shards={"quick": 8, "thorough": 16}),
         Part("hyp-sequences", "hyp", check=check_seq,
              strategy=lambda t: hyp_case(80 if t == "quick" else 300),
-             examples={"quick": 2000, "thorough": 16000}, shards={"quick": 4, "thorough": 16}),
+             examples={"quick": 6400, "thorough": 32000}, shards={"quick": 4, "thorough": 16}),
     ]
 
 TECHNIQUE = "exhaustive enumeration of short charge patterns + Hypothesis property testing against an independent fsum reference (differential oracle) and a respelling metamorphic relation"
